@@ -135,6 +135,13 @@ def directory_orders(run, model, rng):
         other = rng.choice(files)
         twin = dirgen.set_ids(other[1], eid=src[2]["eid"])
         files.append((rng.choice(["0_twin", "m_twin", "zz_twin"]), twin, dict(kind="pel", eid=src[2]["eid"])))
+    if rng.random() < 0.6:
+        # logs whose decoding raises (cut behind the headers), before, between and after the good ones: what is shown for a good log
+        # does not depend on a failed decode having come before it
+        for k in range(rng.randrange(1, 3)):
+            src = rng.choice(files)
+            cut = src[1][:max(73, len(src[1]) - rng.randrange(1, 9))]
+            files.append((rng.choice(["0_cut%d", "m_cut%d", "zz_cut%d"]) % k, cut, dict(kind="junk")))
     run.evaluations += 1
     with dirgen.TempDir(files) as d:
         rc1, out1, _ = cli_runner.run_inproc(["-p", d, "-E", "-a"])
